@@ -2,9 +2,10 @@
 //
 // line:   <K> <op> <operands...>          K = Z (int) | D (double holding small integers)
 //                                             | C (std::complex<double> holding Gaussian integers) | P (GF(32003))
-// matrix operand  = <REP> <r> <c> <list>   REP = FM | DM | DG | SV | TV<base> | TC<base>
-//                   (for TV../TC.. the shape and the entries describe the wrapped / original matrix; DG lists the
-//                    diagonal only; a list is flat, two integers per scalar for K = C)
+// matrix operand  = <REP> <r> <c> <list>   REP = FM | DM | DG | SV | TV<base> | TC<base> | T2<base>
+//                   (for TV../TC../T2.. the shape and the entries describe the wrapped / original matrix; TV = transposed
+//                    view, TC = transposed copy, T2 = transposed view of a transposed view (logically the stored matrix);
+//                    DG lists the diagonal only; a list is flat, two integers per scalar for K = C)
 // vector operand  = <FV|DV|SC> <n> <list>  (SC = plain scalar used as a vector of size 1)
 // scalar operand  = <list>
 // answer: vector -> <list>, matrix -> "<r> <c> <list>", comparison -> true|false
@@ -147,7 +148,7 @@ template <class K> std::string encList(const std::vector<K>& v, bool& ok) {
 // ---- plain operands (the oracle works on these only) ---------------------------------------------------------------
 template <class K> struct PM {
   std::string rep, base;
-  bool tv = false, tc = false;
+  bool tv = false, tc = false, t2 = false;
   int r = 0, c = 0;            // stored shape
   std::vector<K> e;            // stored entries (diagonal only for DG)
   K st(int i, int j) const { return base == "DG" ? (i == j ? e[i] : K(0)) : e[i * c + j]; }
@@ -183,6 +184,7 @@ template <class K> bool parseMat(const std::vector<std::string>& w, size_t& p, P
   m.rep = w[p];
   m.base = m.rep;
   if (m.rep.size() == 4 && m.rep.substr(0, 2) == "TV") { m.tv = true; m.base = m.rep.substr(2); }
+  else if (m.rep.size() == 4 && m.rep.substr(0, 2) == "T2") { m.t2 = true; m.base = m.rep.substr(2); }
   else if (m.rep.size() == 4 && m.rep.substr(0, 2) == "TC") { m.tc = true; m.base = m.rep.substr(2); }
   if (m.base != "FM" && m.base != "DM" && m.base != "DG" && m.base != "SV") return false;
   if (m.tc && m.base == "SV") return false;
@@ -256,6 +258,8 @@ template <class F> bool withInt(int v, F&& f) {
 }
 template <class T> struct IsTW : std::false_type {};
 template <class M> struct IsTW<Dune::Impl::TransposedMatrixWrapper<M>> : std::true_type {};
+template <class T> struct IsNestedTW : std::false_type {};
+template <class M> struct IsNestedTW<Dune::Impl::TransposedMatrixWrapper<M>> : IsTW<std::decay_t<Dune::ResolveRef_t<M>>> {};
 template <class T> struct IsDiag : std::false_type {};
 template <class K, int n> struct IsDiag<Dune::DiagonalMatrix<K, n>> : std::true_type {};
 template <class M> constexpr bool isStatic = Dune::Impl::IsStaticSizeMatrix_v<M>;
@@ -280,7 +284,8 @@ template <class K, class M> bool sameAsStored(const M& A, const PM<K>& m) {
   return true;
 }
 
-enum : unsigned { bFM = 1, bDM = 2, bDG = 4, bSV = 8, bTV = 16, bTC = 32, bALL = 63 };
+enum : unsigned { bFM = 1, bDM = 2, bDG = 4, bSV = 8, bTV = 16, bTC = 32, bALL = 63,
+                  bT2 = 64 /* view of a view, static-size bases */, bT2D = 128 /* view of a view of a DynamicMatrix */ };
 
 // Static FieldMatrix shapes instantiated per field type (bit 4*(r-1)+(c-1)); the sets are symmetric under
 // transposition and together cover all of 1..4 x 1..4 (compile time of the sanitized harness is the limit).
@@ -307,6 +312,17 @@ static bool shapeAllowed(char field, int r, int c) {
   return shapeIn(field == 'Z' ? shapeMask<int> : field == 'D' ? shapeMask<double> : field == 'C' ? shapeMask<CD> : shapeMask<GF>, r, c);
 }
 
+// "rare" static shapes: the rarely used combinations (views of views, a view as left factor, mixed vector kinds) are
+// instantiated for these FieldMatrix shapes only (compile time of the sanitized harness)
+constexpr bool rareShape(int r, int c) { return r != c && r + c >= 5; }
+constexpr bool mixedKindShape(int r, int c) { return r != c && r + c >= 6; }
+template <class M> constexpr bool rareFM() {
+  if constexpr (Dune::Impl::IsFieldMatrix_v<M>) return rareShape(M::rows, M::cols); else return true;
+}
+// a view as LEFT factor of operator*: views of FieldMatrix objects only for the rare shapes
+template <class M> constexpr bool leftFactorInstantiated() {
+  if constexpr (IsTW<M>::value) return rareFM<std::remove_cv_t<typename M::WrappedMatrix>>(); else return true;
+}
 template <class M> constexpr int sRows() { if constexpr (isStatic<M>) return M::rows; else return 0; }
 template <class M> constexpr int sCols() { if constexpr (isStatic<M>) return M::cols; else return 0; }
 
@@ -361,6 +377,18 @@ bool withMat(const PM<K>& m, bool mut, bool& modified, F&& f) {
       return withStored<K, MASK, LC, LR>(m, false, modified, [&](auto& A) {
         if (m.c % 2) { auto V = Dune::transposedView(A); f(V); }
         else { auto V = Dune::transpose(std::cref(A)); f(V); } });
+    return false;
+  }
+  if (m.t2) {
+    // transposed view of a transposed view: logically the stored matrix again.  The two spellings differ in type:
+    // transpose(V) stores a copy of the inner wrapper, transposedView(V) a reference to it.
+    constexpr unsigned BASES = (MASK & bT2 ? (bFM | bDG | bSV) : 0u) | (MASK & bT2D ? bDM : 0u);
+    if constexpr (BASES != 0)
+      return withStored<K, MASK & BASES, LR, LC>(m, false, modified, [&](auto& A) {
+        if constexpr (rareFM<std::decay_t<decltype(A)>>()) {
+          if (m.r % 2) { auto X = Dune::transpose(Dune::transposedView(A)); f(X); }
+          else { auto V = Dune::transposedView(A); auto X = Dune::transposedView(V); f(X); }
+        } });
     return false;
   }
   return withStored<K, MASK, LR, LC>(m, mut, modified, f);
@@ -449,6 +477,22 @@ bool kernelOn(const M& A, const std::string& n, const K& alpha, const PV<K>& x, 
     if constexpr (XS == 1 && YS == 1) {
       if (x.kind == "SC" && y.kind == "SC") { K xv, yv; return kernelXY<K, T>(A, n, alpha, x, y, xv, yv, out, xmod); }
     }
+    // vector representations are interchangeable as kernel arguments: DynamicVector / mixed kinds with a static-size
+    // matrix (instantiated for FieldMatrix objects of the `mixedKindShape`s only, compile time)
+    if constexpr (Dune::Impl::IsFieldMatrix_v<M> && mixedKindShape(M::rows, M::cols)) {
+      if (x.kind == "DV" && y.kind == "DV") {
+        Dune::DynamicVector<K> xv(x.n), yv(y.n);
+        return kernelXY<K, T>(A, n, alpha, x, y, xv, yv, out, xmod);
+      }
+      if (x.kind == "FV" && y.kind == "DV") {
+        Dune::FieldVector<K, XS> xv; Dune::DynamicVector<K> yv(y.n);
+        return kernelXY<K, T>(A, n, alpha, x, y, xv, yv, out, xmod);
+      }
+      if (x.kind == "DV" && y.kind == "FV") {
+        Dune::DynamicVector<K> xv(x.n); Dune::FieldVector<K, YS> yv;
+        return kernelXY<K, T>(A, n, alpha, x, y, xv, yv, out, xmod);
+      }
+    }
     return false;
   } else {
     if (x.kind != "DV" || y.kind != "DV") return false;
@@ -467,11 +511,11 @@ template <class K> Result execKernel(const KDef& kd, const std::vector<std::stri
   std::vector<K> out;
   bool amod = false, xmod = false, ran = false;
   std::string n = kd.name;
-  withMat<K, bALL>(A, false, amod, [&](auto& M) {
+  withMat<K, bALL | bT2 | bT2D>(A, false, amod, [&](auto& M) {
     ran = tr ? kernelOn<K, true>(M, n, alpha, x, y, out, xmod) : kernelOn<K, false>(M, n, alpha, x, y, out, xmod);
   });
   if (!ran) return badOp("kernel not available for this representation / vector kind");
-  stat("kernel_" + n); stat("rep_" + A.rep); stat("xkind_" + x.kind);
+  stat("kernel_" + n); stat("rep_" + A.rep); stat("xykind_" + x.kind + "," + y.kind);
   stat("shape_" + std::to_string(A.r) + "x" + std::to_string(A.c));
   return vecResult<K>(out, kernelOracle<K>(kd, A, alpha, x.e, y.e), amod ? "matrix operand modified" : xmod ? "x modified" : "");
 }
@@ -500,15 +544,31 @@ template <class K> Result execMul(const std::vector<std::string>& w) {
   Full<K> got;
   // the pairs of representations for which dune-common offers operator*
   auto go = [&](auto maskA, auto maskB) {
-    withMat<K, decltype(maskA)::value>(A, false, amod, [&](auto& MA) {
+    constexpr unsigned MASKA = decltype(maskA)::value, MASKB = decltype(maskB)::value;
+    withMat<K, MASKA>(A, false, amod, [&](auto& MA) {
       using TA = std::decay_t<decltype(MA)>;
-      withMat<K, decltype(maskB)::value, sCols<TA>(), 0>(B, false, bmod, [&](auto& MB) {
-        using TB = std::decay_t<decltype(MB)>;
-        if constexpr (CanMul<TA, TB>::value) { auto Cm = MA * MB; got = readMat<K>(Cm); ran = true; }
-      });
+      constexpr bool leftOK = leftFactorInstantiated<TA>();
+      if constexpr (leftOK)
+        withMat<K, MASKB, sCols<TA>(), 0>(B, false, bmod, [&](auto& MB) {
+          using TB = std::decay_t<decltype(MB)>;
+          // a view of a view as right factor: for the rare shapes of the left FieldMatrix only
+          constexpr bool rightOK = !IsNestedTW<TB>::value || rareFM<TA>();
+          if constexpr (rightOK && CanMul<TA, TB>::value) { auto Cm = MA * MB; got = readMat<K>(Cm); ran = true; }
+        });
     });
   };
-  if (B.tv) {
+  using UM = unsigned;
+  const bool aView = A.tv || A.t2, bView = B.tv || B.t2;
+  if (aView && bView) return badOp("no operator* for two views");
+  if (aView) {
+    // view * FieldMatrix: fmatrix.hh `OtherMatrix * FieldMatrix` (the view must have static size)
+    if (B.base == "FM") {
+      if (A.tv && !B.tc) go(std::integral_constant<UM, bFM | bDG | bSV | bTV>{}, std::integral_constant<UM, bFM>{});
+    }
+  } else if (B.t2) {
+    // FieldMatrix * view-of-a-view (static size): fmatrix.hh `FieldMatrix * OtherMatrix`
+    if (A.base == "FM" && !A.tc) go(std::integral_constant<UM, bFM>{}, std::integral_constant<UM, bDG | bSV | bT2>{});
+  } else if (B.tv) {
     if (A.base == "FM" && !A.tv) go(std::integral_constant<unsigned, bFM | bTC>{}, std::integral_constant<unsigned, bFM | bDM | bDG | bSV | bTV>{});
     else if (A.base == "DM" && !A.tv) go(std::integral_constant<unsigned, bDM | bTC>{}, std::integral_constant<unsigned, bFM | bDM | bDG | bTV>{});
   } else if (!A.tv) {
@@ -718,6 +778,7 @@ template <class K, int FN = 0, class F> bool withVec(const PV<K>& v, F&& f) {
   else if (v.kind == "DV") { Dune::DynamicVector<K> x(v.n); fillVec<K>(x, v.e); f(x); done = true; }
   return done;
 }
+template <class K, class F> bool withVecAny(const PV<K>& v, F&& f) { return withVec<K>(v, f); }
 template <class V> constexpr bool isFV = false;
 template <class K, int n> constexpr bool isFV<Dune::FieldVector<K, n>> = true;
 template <class V> constexpr int fvSize = -1;
@@ -727,10 +788,14 @@ template <class K> Result execVec(const std::string& op, const std::vector<std::
   size_t p = 2;
   PV<K> a, b;
   K s = K(0);
+  bool ordvv = op == "v1_lt_v1" || op == "v1_le_v1" || op == "v1_gt_v1" || op == "v1_ge_v1";
+  bool ordvs = op == "v1_lt_s" || op == "v1_le_s" || op == "v1_gt_s" || op == "v1_ge_s" || op == "s_lt_v1" || op == "s_le_v1" ||
+               op == "s_gt_v1" || op == "s_ge_v1";
   bool two = op == "vadd" || op == "vsub" || op == "vplus" || op == "vminus" || op == "vaxpy" || op == "veq" || op == "vne" ||
-             op == "vdotT" || op == "vdot" || op == "fdot" || op == "fdotT";
-  bool sc = !two && op != "vneg";
+             op == "vdotT" || op == "vdot" || op == "fdot" || op == "fdotT" || ordvv;
+  bool sc = !two && op != "vneg" && op != "v1_conv";
   if (op == "vaxpy") sc = true;
+  if ((ordvv || ordvs) && !std::is_arithmetic_v<K>) return badOp("ordering comparison for an unordered field");
   if (!parseVec<K>(w, p, a)) return badOp("operand");
   if (sc && !parseScalar<K>(w, p, s)) return badOp("scalar");
   if (two && !parseVec<K>(w, p, b)) return badOp("operand");
@@ -759,8 +824,8 @@ template <class K> Result execVec(const std::string& op, const std::vector<std::
   }
   bool ran = false, bres = false, amod = false, bmod = false;
   std::vector<K> got;
-  bool cmp = op == "veq" || op == "vne" || op == "v1_eq_s" || op == "s_ne_v1";
-  bool scalarOut = op == "vdotT" || op == "vdot" || op == "fdot" || op == "fdotT";
+  bool cmp = op == "veq" || op == "vne" || op == "v1_eq_s" || op == "s_ne_v1" || op == "v1_ne_s" || op == "s_eq_v1" || ordvv || ordvs;
+  bool scalarOut = op == "vdotT" || op == "vdot" || op == "fdot" || op == "fdotT" || op == "v1_conv";
   if (a.kind == "SC") {
     // free functions on plain scalars
     if (!two || b.kind != "SC") return badOp("scalar operands");
@@ -786,6 +851,13 @@ template <class K> Result execVec(const std::string& op, const std::vector<std::
         else if (op == "vdot") { got = {cx.dot(y)}; ran = true; }
         else if (op == "fdot") { got = {Dune::dot(cx, y)}; ran = true; }
         else if (op == "fdotT") { got = {Dune::dotT(cx, y)}; ran = true; }
+        else if constexpr (std::is_arithmetic_v<K> && isFV<X> && isFV<Y> && fvSize<X> == 1 && fvSize<Y> == 1) {
+          const auto& cy = y;
+          if (op == "v1_lt_v1") { bres = (cx < cy); ran = true; }
+          else if (op == "v1_le_v1") { bres = (cx <= cy); ran = true; }
+          else if (op == "v1_gt_v1") { bres = (cx > cy); ran = true; }
+          else if (op == "v1_ge_v1") { bres = (cx >= cy); ran = true; }
+        }
         if (readVec<K>(y, n) != b.e) bmod = true;
         bool inpl = op == "vadd" || op == "vsub" || op == "vaxpy";
         if (!inpl && readVec<K>(x, n) != a.e) amod = true;
@@ -820,6 +892,22 @@ template <class K> Result execVec(const std::string& op, const std::vector<std::
           else if (op == "s_over_v1") R = s / cx;
           else if (op == "v1_eq_s") { bres = (cx == s); val = false; }
           else if (op == "s_ne_v1") { bres = (s != cx); val = false; }
+          else if (op == "v1_ne_s") { bres = (cx != s); val = false; }
+          else if (op == "s_eq_v1") { bres = (s == cx); val = false; }
+          else if (op == "v1_conv") { const K& c0 = cx; R[0] = c0; }
+          else if (ordvs) {
+            if constexpr (std::is_arithmetic_v<K>) {
+              val = false;
+              if (op == "v1_lt_s") bres = (cx < s);
+              else if (op == "v1_le_s") bres = (cx <= s);
+              else if (op == "v1_gt_s") bres = (cx > s);
+              else if (op == "v1_ge_s") bres = (cx >= s);
+              else if (op == "s_lt_v1") bres = (s < cx);
+              else if (op == "s_le_v1") bres = (s <= cx);
+              else if (op == "s_gt_v1") bres = (s > cx);
+              else bres = (s >= cx);
+            } else return;
+          }
           else return;
           if (val) got = readVec<K>(R, n);
           ran = true;
@@ -835,11 +923,180 @@ template <class K> Result execVec(const std::string& op, const std::vector<std::
   stat("op_" + op); stat(op + "_" + a.kind + (two ? "," + b.kind : "")); stat("vsize_" + std::to_string(n));
   std::string note = amod || bmod ? "operand modified" : "";
   if (cmp) {
-    bool e = op == "veq" ? a.e == b.e : op == "vne" ? a.e != b.e : op == "v1_eq_s" ? a.e[0] == s : s != a.e[0];
+    bool e;
+    if (op == "veq") e = a.e == b.e;
+    else if (op == "vne") e = a.e != b.e;
+    else if (op == "v1_eq_s" || op == "s_eq_v1") e = a.e[0] == s;
+    else if (op == "s_ne_v1" || op == "v1_ne_s") e = a.e[0] != s;
+    else {
+      // ordering comparisons (int / double only): decided on the integers of the op line
+      long l = 0, r = 0;
+      if constexpr (std::is_arithmetic_v<K>) {
+        long av = (long)a.e[0], ov = ordvv ? (long)b.e[0] : (long)s;
+        bool sFirst = op.rfind("s_", 0) == 0;
+        l = sFirst ? ov : av; r = sFirst ? av : ov;
+      }
+      std::string rel = op.substr(op.find('_') + 1, 2);
+      e = rel == "lt" ? l < r : rel == "le" ? l <= r : rel == "gt" ? l > r : l >= r;
+    }
     return boolResult(bres, e, note);
   }
+  if (op == "v1_conv") return vecResult<K>(got, a.e, note);
   if (scalarOut) return vecResult<K>(got, std::vector<K>{(op == "vdot" || op == "fdot") ? dotH : dotT}, note);
   return vecResult<K>(got, expect, note);
+}
+
+
+// ---- FieldMatrix<K,1,1>: mixed operations with plain scalars, conversion to the scalar (fmatrix.hh, class FieldMatrix<K,1,1>) -----
+static const std::vector<std::string> M11OPS = {"m11_plus_s", "s_plus_m11", "m11_minus_s", "s_minus_m11", "m11_adds", "m11_subs", "m11_conv"};
+template <class K> Result execM11(const std::string& op, const std::vector<std::string>& w) {
+  size_t p = 2;
+  PM<K> A;
+  K s = K(0);
+  if (!parseMat<K>(w, p, A)) return badOp("operand");
+  if (op != "m11_conv" && !parseScalar<K>(w, p, s)) return badOp("scalar");
+  if (p != w.size()) return badOp("trailing tokens");
+  if (A.rep != "FM" || A.r != 1 || A.c != 1) return badOp("FieldMatrix<K,1,1> only");
+  K a = A.e[0];
+  K expect = op == "m11_plus_s" || op == "m11_adds" ? a + s : op == "s_plus_m11" ? s + a
+           : op == "m11_minus_s" || op == "m11_subs" ? a - s : op == "s_minus_m11" ? s - a : a;
+  Dune::FieldMatrix<K, 1, 1> M;
+  M[0][0] = a;
+  const auto& cM = M;
+  bool amod = false;
+  K got = K(0);
+  bool scalarOut = false;
+  if (op == "m11_plus_s") { auto R = cM + s; got = R[0][0]; }
+  else if (op == "s_plus_m11") { auto R = s + cM; got = R[0][0]; }
+  else if (op == "m11_minus_s") { auto R = cM - s; got = R[0][0]; }
+  else if (op == "s_minus_m11") { auto R = s - cM; got = R[0][0]; }
+  else if (op == "m11_adds") { auto& R = (M += s); got = R[0][0]; if (&R != &M) return badOp("+= did not return *this"); }
+  else if (op == "m11_subs") { auto& R = (M -= s); got = R[0][0]; if (&R != &M) return badOp("-= did not return *this"); }
+  else { const K& conv = cM; got = conv; scalarOut = true; }
+  bool inpl = op == "m11_adds" || op == "m11_subs";
+  if (!inpl && M[0][0] != a) amod = true;
+  stat("op_" + op);
+  if (scalarOut) return vecResult<K>(std::vector<K>{got}, std::vector<K>{expect}, amod ? "operand modified" : "");
+  Full<K> g(1, 1), e(1, 1);
+  g(0, 0) = got; e(0, 0) = expect;
+  return matResult<K>(g, e, amod ? "operand modified" : "");
+}
+
+// ---- FMatrixHelp / DenseMatrixHelp: multAssign, multAssignTransposed, mult, multTransposed ---------------------------
+static const std::vector<std::string> MULTOPS = {"multassign", "multassignT", "fmult", "fmultT"};
+template <class K> Result execMultAssign(const std::string& op, const std::vector<std::string>& w) {
+  size_t p = 2;
+  PM<K> A;
+  PV<K> x;
+  if (!parseMat<K>(w, p, A) || !parseVec<K>(w, p, x) || p != w.size()) return badOp("operands");
+  if (A.tr() || A.t2 || (A.base != "FM" && A.base != "DM")) return badOp("FieldMatrix / DynamicMatrix only");
+  bool tr = op == "multassignT" || op == "fmultT";
+  if (x.n != (tr ? A.r : A.c)) return badOp("vector size");
+  int outN = tr ? A.c : A.r, inN = tr ? A.r : A.c;
+  std::vector<K> expect(outN, K(0)), got;
+  for (int i = 0; i < outN; ++i) for (int j = 0; j < inN; ++j) expect[i] = expect[i] + (tr ? A.st(j, i) : A.st(i, j)) * x.e[j];
+  bool amod = false, xmod = false, ran = false;
+  if (A.base == "DM") {
+    // DenseMatrixHelp::multAssign is written against DenseMatrix / DenseVector: any pair of representations
+    if (op != "multassign" || x.kind != "DV") return badOp("only multAssign with DynamicVector for a DynamicMatrix");
+    withStored<K, bDM>(A, false, amod, [&](auto& M) {
+      Dune::DynamicVector<K> xv(x.n), ret(outN, K(7));
+      fillVec<K>(xv, x.e);
+      Dune::DenseMatrixHelp::multAssign(M, std::as_const(xv), ret);
+      got = readVec<K>(ret, outN); ran = true;
+      if (readVec<K>(xv, x.n) != x.e) xmod = true;
+    });
+  } else {
+    if (x.kind != "FV") return badOp("FieldVector only");
+    withStored<K, bFM>(A, false, amod, [&](auto& M) {
+      using TM = std::decay_t<decltype(M)>;
+      constexpr int XS = TM::cols, YS = TM::rows;
+      if (op == "multassign" || op == "fmult") {
+        Dune::FieldVector<K, XS> xv; fillVec<K>(xv, x.e);
+        if (op == "multassign") { Dune::FieldVector<K, YS> ret(K(7)); Dune::FMatrixHelp::multAssign(M, std::as_const(xv), ret); got = readVec<K>(ret, YS); }
+        else { auto ret = Dune::FMatrixHelp::mult(M, std::as_const(xv)); got = readVec<K>(ret, YS); }
+        if (readVec<K>(xv, XS) != x.e) xmod = true;
+      } else {
+        Dune::FieldVector<K, YS> xv; fillVec<K>(xv, x.e);
+        if (op == "multassignT") { Dune::FieldVector<K, XS> ret(K(7)); Dune::FMatrixHelp::multAssignTransposed(M, std::as_const(xv), ret); got = readVec<K>(ret, XS); }
+        else { auto ret = Dune::FMatrixHelp::multTransposed(M, std::as_const(xv)); got = readVec<K>(ret, XS); }
+        if (readVec<K>(xv, YS) != x.e) xmod = true;
+      }
+      ran = true;
+    });
+  }
+  if (!ran) return badOp(op + " not available");
+  stat("op_" + op); stat(op + "_" + A.rep);
+  return vecResult<K>(got, expect, amod ? "matrix operand modified" : xmod ? "x modified" : "");
+}
+
+// ---- conversions between representations: construction / assignment from another representation ---------------------
+// assign <FM|DM> <source matrix>     target (pre-filled with other values, a DynamicMatrix also with another shape) = source
+// vassign <FV|DV> <source vector>
+template <class K> Result execAssign(const std::string& op, const std::vector<std::string>& w) {
+  size_t p = 3;
+  if (w.size() < 4) return badOp("operands");
+  const std::string tgt = w[2];
+  if (op == "vassign") {
+    PV<K> x;
+    if (!parseVec<K>(w, p, x) || p != w.size() || x.kind == "SC") return badOp("operand");
+    if (tgt != "FV" && tgt != "DV") return badOp("target kind");
+    std::vector<K> got;
+    bool ran = false, xmod = false;
+    withVecAny<K>(x, [&](auto& xv) {
+      using X = std::decay_t<decltype(xv)>;
+      const X& cx = xv;
+      if (tgt == "DV") {
+        if (x.n % 2) { Dune::DynamicVector<K> t(cx); got = readVec<K>(t, x.n); }               // converting constructor
+        else { Dune::DynamicVector<K> t(x.n, K(7)); t = cx; got = readVec<K>(t, x.n); }   // DenseVector::operator=
+        ran = true;
+      } else {
+        auto mk = [&](auto N) {
+          constexpr int n = decltype(N)::value;
+          if constexpr (!isFV<X> || fvSize<X> == n) {
+            if (x.e.size() % 2 == 0) { Dune::FieldVector<K, n> t(cx); got = readVec<K>(t, n); }
+            else { Dune::FieldVector<K, n> t(K(7)); t = cx; got = readVec<K>(t, n); }
+            ran = true;
+          }
+        };
+        if constexpr (isFV<X>) mk(IC<fvSize<X>>{}); else withInt(x.n, mk);
+      }
+      if (readVec<K>(xv, x.n) != x.e) xmod = true;
+    });
+    if (!ran) return badOp("vassign not available");
+    stat("op_vassign"); stat("vassign_" + tgt + "<-" + x.kind);
+    return vecResult<K>(got, x.e, xmod ? "operand modified" : "");
+  }
+  PM<K> A;
+  if (!parseMat<K>(w, p, A) || p != w.size()) return badOp("operand");
+  if (A.tr() || A.t2) return badOp("plain representations only");
+  if (tgt != "FM" && tgt != "DM") return badOp("target representation");
+  bool amod = false, ran = false;
+  Full<K> got;
+  if (tgt == "DM") {
+    withStored<K, bFM | bDM | bDG | bSV>(A, false, amod, [&](auto& M) {
+      if (A.e.size() % 2) { Dune::DynamicMatrix<K> T(M); got = readMat<K>(T); }
+      else { Dune::DynamicMatrix<K> T(A.c + 1, A.r + 2, K(7)); T = M; got = readMat<K>(T); }
+      ran = true;
+    });
+  } else {
+    withStored<K, bFM | bDM | bDG | bSV>(A, false, amod, [&](auto& M) {
+      using TM = std::decay_t<decltype(M)>;
+      auto mk = [&](auto R, auto C) {
+        constexpr int r = decltype(R)::value, c = decltype(C)::value;
+        if constexpr (fmShape<K>(r, c)) {
+          if (A.e.size() % 2) { Dune::FieldMatrix<K, r, c> T(M); got = readMat<K>(T); }
+          else { Dune::FieldMatrix<K, r, c> T(K(7)); T = M; got = readMat<K>(T); }
+          ran = true;
+        }
+      };
+      if constexpr (isStatic<TM>) mk(IC<TM::rows>{}, IC<TM::cols>{});
+      else if (A.r == A.c) withInt(A.r, [&](auto N) { mk(N, N); });   // FieldMatrix = DynamicMatrix: square shapes only (compile time)
+    });
+  }
+  if (!ran) return badOp("assign not available for this pair");
+  stat("op_assign"); stat("assign_" + tgt + "<-" + A.rep);
+  return matResult<K>(got, logical(A), amod ? "operand modified" : "");
 }
 
 // ---- dispatch --------------------------------------------------------------------------------------------------------
@@ -848,11 +1105,13 @@ static const std::vector<std::string> MATVS = {"madd", "msub", "mplus", "mminus"
 static const std::vector<std::string> VECOPS = {
     "vadd", "vsub", "vplus", "vminus", "vneg", "vadds", "vsubs", "vscale", "vdiv", "vtimes", "vltimes", "vover", "vaxpy",
     "veq", "vne", "vdotT", "vdot", "fdot", "fdotT", "v1_plus_s", "s_plus_v1", "v1_minus_s", "s_minus_v1", "v1_times_s",
-    "s_times_v1", "v1_over_s", "s_over_v1", "v1_eq_s", "s_ne_v1"};
+    "s_times_v1", "v1_over_s", "s_over_v1", "v1_eq_s", "s_ne_v1", "v1_ne_s", "s_eq_v1", "v1_conv",
+    "v1_lt_s", "v1_le_s", "v1_gt_s", "v1_ge_s", "s_lt_v1", "s_le_v1", "s_gt_v1", "s_ge_v1",
+    "v1_lt_v1", "v1_le_v1", "v1_gt_v1", "v1_ge_v1"};
 static bool has(const std::vector<std::string>& v, const std::string& s) { return std::find(v.begin(), v.end(), s) != v.end(); }
 
 #ifndef C01_CATS
-#define C01_CATS 63
+#define C01_CATS 127
 #endif
 template <class K> Result execK(const std::vector<std::string>& w) {
   const std::string& op = w[1];
@@ -874,6 +1133,11 @@ template <class K> Result execK(const std::vector<std::string>& w) {
 #endif
 #if C01_CATS & 32
   if (has(VECOPS, op)) return execVec<K>(op, w);
+#endif
+#if C01_CATS & 64
+  if (has(M11OPS, op)) return execM11<K>(op, w);
+  if (has(MULTOPS, op)) return execMultAssign<K>(op, w);
+  if (op == "assign" || op == "vassign") return execAssign<K>(op, w);
 #endif
   return badOp("unknown op " + op);
 }
@@ -957,29 +1221,37 @@ static std::string genOnce(Rng& rng) {
     if (b == "DG") cc = rr;
     if (b == "SV") rr = cc = 1;
   };
+  auto isT = [](const std::string& rep) { return rep.size() == 4 && rep.substr(0, 2) != "T2"; };   // logically transposed?
   int cat = (int)r.below(100);
-  if (cat < 40) {
+  if (cat < 36) {
     // kernels
-    static const std::vector<std::string> reps = {"FM", "FM", "FM", "DM", "DM", "DG", "DG", "SV", "TCFM", "TCDM", "TCDG",
-                                                  "TVFM", "TVDM", "TVDG", "TVSV"};
+    static const std::vector<std::string> reps = {"FM", "FM", "FM", "FM", "DM", "DM", "DG", "DG", "SV", "TCFM", "TCDM", "TCDG",
+                                                  "TVFM", "TVDM", "TVDG", "TVSV", "T2FM", "T2DM", "T2DG", "T2SV"};
     std::string rep = r.pick(reps);
-    const KDef& kd = rep.substr(0, 2) == "TV" ? KDEFS[r.below(2)] : KDEFS[r.below(11)];
+    bool view = rep.substr(0, 2) == "TV" || rep.substr(0, 2) == "T2";
+    const KDef& kd = view ? KDEFS[r.below(2)] : KDEFS[r.below(11)];
     int rr, cc;
     shapeFor(rep, rr, cc);
-    bool tr = rep.size() == 4;
+    bool tr = isT(rep);
     int R = tr ? cc : rr, C = tr ? rr : cc;
     int xn = kd.tr == 'N' ? C : R, yn = kd.tr == 'N' ? R : C;
-    std::string vk = baseOf(rep) == "DM" ? "DV" : "FV";
-    if (vk == "FV" && R == 1 && C == 1 && r.coin()) vk = "SC";
-    os << kd.name << " " << g.mat(rep, rr, cc) << " " << g.scalars(1) << " " << g.vec(vk, xn) << " " << g.vec(vk, yn);
+    std::string vk = baseOf(rep) == "DM" ? "DV" : "FV", vy = vk;
+    if (vk == "FV" && R == 1 && C == 1 && r.coin()) vk = vy = "SC";
+    // vector kinds are interchangeable: DynamicVector / mixed kinds with static-size matrices (instantiated shapes only)
+    if ((rep == "FM" || rep == "TCFM") && mixedKindShape(R, C) && r.coin(1, 2)) {
+      switch (r.below(3)) { case 0: vk = "DV"; vy = "DV"; break; case 1: vk = "FV"; vy = "DV"; break; default: vk = "DV"; vy = "FV"; }
+    }
+    os << kd.name << " " << g.mat(rep, rr, cc) << " " << g.scalars(1) << " " << g.vec(vk, xn) << " " << g.vec(vy, yn);
     return os.str();
   }
-  if (cat < 58) {
+  if (cat < 53) {
     // operator* on pairs of representations
     static const std::vector<std::pair<std::string, std::string>> pairs = {
         {"FM", "FM"}, {"FM", "FM"}, {"FM", "DG"}, {"DG", "FM"}, {"DG", "DG"}, {"FM", "SV"}, {"SV", "FM"},
         {"FM", "TVFM"}, {"FM", "TVDG"}, {"FM", "TVDM"}, {"FM", "TVSV"}, {"DM", "TVDM"}, {"DM", "TVDM"}, {"DM", "TVFM"},
-        {"DM", "TVDG"}, {"TCFM", "FM"}, {"FM", "TCFM"}, {"TCDM", "TVDM"}, {"FM", "TCDG"}, {"TCDG", "FM"}, {"TCFM", "TVFM"}};
+        {"DM", "TVDG"}, {"TCFM", "FM"}, {"FM", "TCFM"}, {"TCDM", "TVDM"}, {"FM", "TCDG"}, {"TCDG", "FM"}, {"TCFM", "TVFM"},
+        // a view on the left (fmatrix.hh OtherMatrix * FieldMatrix), views of views
+        {"TVFM", "FM"}, {"TVFM", "FM"}, {"TVDG", "FM"}, {"TVSV", "FM"}, {"FM", "T2DG"}, {"FM", "T2DG"}, {"FM", "T2SV"}};
     auto pr = r.pick(pairs);
     // logical shapes R x Kk times Kk x C
     auto lim = [&](const std::string& rep) { return maxDim(baseOf(rep)); };
@@ -990,13 +1262,13 @@ static std::string genOnce(Rng& rng) {
     if (baseOf(pr.second) == "DG" || baseOf(pr.second) == "SV") C = Kk;
     if (baseOf(pr.first) == "SV" || baseOf(pr.second) == "SV") { Kk = 1; if (baseOf(pr.first) == "SV") R = 1; if (baseOf(pr.second) == "SV") C = 1; }
     auto put = [&](const std::string& rep, int lr, int lc) {
-      bool tr = rep.size() == 4;
+      bool tr = isT(rep);
       return g.mat(rep, tr ? lc : lr, tr ? lr : lc);
     };
     os << "mul " << put(pr.first, R, Kk) << " " << put(pr.second, Kk, C);
     return os.str();
   }
-  if (cat < 68) {
+  if (cat < 62) {
     static const std::vector<std::string> ops = {"leftmultiply", "rightmultiply", "leftmultiplyany", "rightmultiplyany", "multmatrix"};
     std::string op = r.pick(ops);
     bool any = op != "leftmultiply" && op != "rightmultiply";
@@ -1011,7 +1283,7 @@ static std::string genOnce(Rng& rng) {
     else os << op << " " << g.mat(ra, rr, cc) << " " << g.mat(rm, cc, l);
     return os.str();
   }
-  if (cat < 74) {
+  if (cat < 67) {
     if (r.coin(1, 5)) { int rr, cc; shapeFor("FM", rr, cc); os << "multtm " << g.mat("FM", rr, cc); return os.str(); }
     static const std::vector<std::string> reps = {"FM", "FM", "DM", "DM", "DG", "SV", "TVFM", "TVDM", "TVDG", "TVSV", "TCFM", "TCDM", "TCDG"};
     std::string rep = r.pick(reps);
@@ -1035,6 +1307,40 @@ static std::string genOnce(Rng& rng) {
                                       (g.K == 'C' && !smithExact(k[0], k[1]) && !r.coin(1, 8)));
     return k;
   };
+  if (cat < 75) {
+    // FieldMatrix<K,1,1> / scalar mixes, the FMatrixHelp matrix-vector helpers, conversions between representations
+    int sub = (int)r.below(10);
+    if (sub < 3) {
+      std::string op = r.pick(M11OPS);
+      os << op << " " << g.mat("FM", 1, 1);
+      if (op != "m11_conv") os << " " << g.scalars(1);
+      return os.str();
+    }
+    if (sub < 6) {
+      std::string op = r.pick(MULTOPS);
+      bool dyn = op == "multassign" && r.coin(1, 3);
+      int rr, cc;
+      shapeFor(dyn ? "DM" : "FM", rr, cc);
+      bool tr = op == "multassignT" || op == "fmultT";
+      os << op << " " << g.mat(dyn ? "DM" : "FM", rr, cc) << " " << g.vec(dyn ? "DV" : "FV", tr ? rr : cc);
+      return os.str();
+    }
+    if (sub < 8) {
+      std::string tgt = r.coin() ? "FM" : "DM";
+      std::string src = r.pick(std::vector<std::string>{"FM", "DM", "DG", "DG", "SV"});
+      int rr, cc;
+      shapeFor(src, rr, cc);
+      if (tgt == "FM" && src == "DM") { rr = cc = 1 + (int)r.below(4); }   // FieldMatrix = DynamicMatrix: square shapes are instantiated
+      os << "assign " << tgt << " " << g.mat(src, rr, cc);
+      return os.str();
+    }
+    {
+      std::string tgt = r.coin() ? "FV" : "DV", src = r.coin() ? "FV" : "DV";
+      int n = (tgt == "FV" || src == "FV") ? 1 + (int)r.below(4) : 1 + (int)r.below(6);
+      os << "vassign " << tgt << " " << g.vec(src, n);
+      return os.str();
+    }
+  }
   if (cat < 86) {
     std::string op = r.pick(MATVS);
     bool two = op == "madd" || op == "msub" || op == "mplus" || op == "mminus" || op == "maxpy" || op == "meq" || op == "mne";
@@ -1078,8 +1384,12 @@ static std::string genOnce(Rng& rng) {
   }
   {
     std::string op = r.pick(VECOPS);
+    bool ordop = op.find("_lt_") != std::string::npos || op.find("_le_") != std::string::npos || op.find("_gt_") != std::string::npos ||
+                 op.find("_ge_") != std::string::npos;
+    if (ordop && (g.K == 'C' || g.K == 'P')) { g.K = r.coin() ? 'Z' : 'D'; os.str(""); os << g.K << " "; }   // ordered fields only
     bool two = op == "vadd" || op == "vsub" || op == "vplus" || op == "vminus" || op == "vaxpy" || op == "veq" || op == "vne" ||
-               op == "vdotT" || op == "vdot" || op == "fdot" || op == "fdotT";
+               op == "vdotT" || op == "vdot" || op == "fdot" || op == "fdotT" || op == "v1_lt_v1" || op == "v1_le_v1" ||
+               op == "v1_gt_v1" || op == "v1_ge_v1";
     bool one = op.find("v1") != std::string::npos;
     bool fvOnly = op == "vtimes" || op == "vltimes" || op == "vover";
     std::string ka = (one || fvOnly) ? "FV" : r.coin() ? "FV" : "DV";
@@ -1096,9 +1406,10 @@ static std::string genOnce(Rng& rng) {
       aStr = ka + " " + std::to_string(n) + " " + aStr;
     } else aStr = g.vec(ka, n);
     os << op << " " << aStr;
-    if ((!two && op != "vneg") || op == "vaxpy") os << " " << sStr;
+    if ((!two && op != "vneg" && op != "v1_conv") || op == "vaxpy") os << " " << sStr;
     if (two) {
-      if ((op == "veq" || op == "vne") && r.coin()) {
+      if (one) kb = "FV";
+      if ((op == "veq" || op == "vne" || ordop) && r.coin()) {
         std::string l = aStr.substr(aStr.find('['));
         if (r.coin(1, 3)) {
           std::vector<long> v = parseList(l);
@@ -1116,9 +1427,19 @@ static std::string genOnce(Rng& rng) {
 // every FieldMatrix operand must have one of the static shapes instantiated for its field
 static bool shapesInstantiated(const std::string& line) {
   auto w = words(line);
+  auto num = [](const std::string& t) { return !t.empty() && std::isdigit((unsigned char)t[0]); };
   for (size_t i = 0; i + 2 < w.size(); ++i)
-    if (w[i] == "FM" || w[i] == "TCFM" || w[i] == "TVFM")
+    if ((w[i] == "FM" || w[i] == "TCFM" || w[i] == "TVFM" || w[i] == "T2FM") && num(w[i + 1]) && num(w[i + 2]))
       if (!shapeAllowed(w[0][0], std::stoi(w[i + 1]), std::stoi(w[i + 2]))) return false;
+  // rarely used combinations are instantiated for the `rareShape`s only
+  for (size_t i = 0; i + 2 < w.size(); ++i)
+    if ((w[i] == "T2FM" || (i == 2 && w[1] == "mul" && w[i] == "TVFM")) && num(w[i + 1]) && num(w[i + 2]))
+      if (!rareShape(std::stoi(w[i + 1]), std::stoi(w[i + 2]))) return false;
+  // FieldMatrix * view-of-a-view: rare shapes of the left factor
+  if (w.size() >= 10 && w[1] == "mul" && w[2] == "FM" && w[6].substr(0, 2) == "T2" && !rareShape(std::stoi(w[3]), std::stoi(w[4]))) return false;
+  // assign FM <source>: the target FieldMatrix has the source's shape
+  if (w.size() >= 6 && w[1] == "assign" && w[2] == "FM" && num(w[4]) && num(w[5]))
+    if (!shapeAllowed(w[0][0], std::stoi(w[4]), std::stoi(w[5]))) return false;
   return true;
 }
 std::string gen(Rng& rng, long, const Args&) {
